@@ -629,7 +629,23 @@ class Body:
                 kind = "adt:%s::%s" % (rv["adt"], rv["variant"])
             elif kind == "closure":
                 kind = "closure:%s" % rv["closure"]
-            return E("agg", kind, tuple(self.expr_operand(o, depth, env) for o in rv["ops"]), t=rv)
+            ops = tuple(self.expr_operand(o, depth, env) for o in rv["ops"])
+            if DISSOLVE and rv["agg"] == "adt" and any(fn in DISSOLVE and DISSOLVE[fn]["owner"] == rv["adt"] for fn in rv.get("fields") or ()):
+                fl, ol = [], []
+                for fn, op in zip(rv["fields"], ops):
+                    d = DISSOLVE.get(fn)
+                    inner = strip_refs(op)
+                    if d is not None and d["owner"] == rv["adt"] and inner.k == "agg" and inner.t is not None and inner.t.get("adt") == d["helper"] \
+                            and all(x in d["rename"] for x in inner.t.get("fields") or ()):
+                        for fn2, op2 in zip(inner.t["fields"], inner.a[1]):
+                            fl.append(d["rename"][fn2])
+                            ol.append(op2)
+                    else:
+                        fl.append(fn)
+                        ol.append(op)
+                rv = dict(rv, fields=fl)
+                ops = tuple(ol)
+            return E("agg", kind, ops, t=rv)
         if k == "repeat":
             return E("agg", "repeat", (self.expr_operand(rv["op"], depth, env),))
         return E("unknown", rv.get("dbg", k))
@@ -723,7 +739,23 @@ def apath(e):
         else:
             break
     fields.reverse()
+    if DISSOLVE and len(fields) > 1:
+        # a field of a private helper struct embedded in a role struct is that struct's own field (the helper only groups them)
+        out, i = [], 0
+        while i < len(fields):
+            d = DISSOLVE.get(fields[i])
+            if d is not None and i + 1 < len(fields) and fields[i + 1] in d["rename"]:
+                out.append(d["rename"][fields[i + 1]])
+                i += 2
+            else:
+                out.append(fields[i])
+                i += 1
+        fields = out
     return e, tuple(fields)
+
+
+# field name of a role struct → {"owner": S, "helper": H, "rename": {field of H: name in the flattened view of S}}; filled by Program
+DISSOLVE = {}
 
 
 def self_path(e):
